@@ -19,8 +19,9 @@ import "time"
 // ---------- C17: GC statistics counters ----------
 
 //@ func (s *GCFileState) addRecord
-//@   props C17
-//@   ints bv
+//@   props C17 C18
+//@   ints both
+//@   nooverflow
 //@   requires uint64(size)+uint64(sizeBroken) <= 0xffffffff   // the code adds the two uint32 sizes before widening
 //@   modifies s.NumReleased, s.SizeReleased, s.NumReleasedDeleted, s.SizeDeleted, s.SizeBroken, s.SizeBefore, s.NumBefore
 //@   ensures s.NumBefore == old(s.NumBefore)+1
@@ -33,8 +34,9 @@ import "time"
 //@   ensures s.NumNotInHtree == old(s.NumNotInHtree)
 
 //@ func (s *GCFileState) add
-//@   props C17
-//@   ints bv
+//@   props C17 C18
+//@   ints both
+//@   nooverflow
 //@   requires s2 != nil
 //@   modifies all(s)
 //@   ensures s.NumBefore == old(s.NumBefore)+old(s2.NumBefore) && s.NumReleased == old(s.NumReleased)+old(s2.NumReleased)
@@ -221,12 +223,17 @@ func specReadyBucket(store *HStore, bucketID int) *Bucket {
 //@   props C17
 //@   ints math
 //@   assumed file I/O (os.Stat, OpenFile, Seek, Create): any writer or any error
-//@   ensures result1 != nil ==> result0 == nil
+//@   modifies ghostFail()
+//@   ensures result1 != nil ==> result0 == nil && ioFailed()
+//@   ensures result1 == nil ==> result0 != nil && fresh(result0)
 
 //@ func (dc *dataChunk) beginGCWriting
 //@   props C17
 //@   ints math
-//@   modifies dc.rewriting, dc.writingHead, dc.gcWriter
+//@   modifies dc.rewriting, dc.writingHead, dc.gcWriter, ghostScanEnd[dc], ghostFail()
 //@   ensures dc.chunkid == srcChunk ==> dc.rewriting && dc.writingHead == 0                                          // the first source file is rewritten in place
 //@   ensures dc.chunkid != srcChunk ==> dc.rewriting == old(dc.rewriting) && dc.writingHead == dc.size             // an earlier file is only appended to
-//@   ensures err != nil ==> dc.gcWriter == nil
+//@   ensures err != nil ==> dc.gcWriter == nil && ioFailed()      // only opening the writer can fail
+//@   ensures [assumed] dc.chunkid == srcChunk ==> !ghostScanEnd[dc]      // ghost protocol state of the GC pass: a file that starts being rewritten in place has not been scanned yet
+//@   ensures [assumed] dc.chunkid != srcChunk ==> ghostScanEnd[dc] == old(ghostScanEnd[dc])
+//@   ensures err == nil ==> dc.gcWriter != nil
